@@ -29,6 +29,11 @@ def path_of(pkg, tier=0):
     return (pkg.replace(".", "/") + "/" if pkg else "") + ("p_%s_%d.proto" % (pkg.replace(".", "_") or "root", tier))
 
 
+def _json_name(n):
+    parts = n.split("_")
+    return (parts[0] + "".join(p[:1].upper() + p[1:] for p in parts[1:])).lower()     # compared case-insensitively, to be safe
+
+
 def qual(pkg, rel):
     return ("." + pkg + "." + rel) if pkg else ("." + rel)
 
@@ -104,9 +109,10 @@ def gen_program(rnd, shape=None, n_msgs=(1, 3), with_services=True, max_fields=7
         def fname():
             nonlocal num
             n = rnd.choice(STRESS_NAMES) if rnd.random() < .2 else "f%d" % num
-            while n in names:
+            # protoc rejects two fields of one message whose default JSON names coincide (foo_bar / fooBar)
+            while _json_name(n) in names:
                 n = "f%d_%d" % (num, len(names))
-            names.add(n)
+            names.add(_json_name(n))
             return n
 
         def ftype():
